@@ -10,26 +10,34 @@ import TdVerif.Model.C08Lazy
 namespace TdVerif.C08
 
 /-- SPEC: a pointwise function on a tensor -/
-def T.map1 (g : α → α) (a : T α) : T α := ⟨a.shape, fun c => g (a.get c)⟩
+def T.map1 (g : α → β) (a : T α) : T β := ⟨a.shape, fun c => g (a.get c)⟩
 
 /-- SPEC: a pointwise function of two tensors of the same shape -/
-def T.map2 (g : α → α → α) (a b : T α) : T α := ⟨a.shape, fun c => g (a.get c) (b.get c)⟩
+def T.map2 (g : α → β → γ) (a : T α) (b : T β) : T γ := ⟨a.shape, fun c => g (a.get c) (b.get c)⟩
 
 /-- SPEC: `td.apply(fn)` on a plain tensordict -/
-def TD.apply1 (g : α → α) (a : TD α) : TD α :=
+def TD.apply1 (g : α → β) (a : TD α) : TD β :=
   { batch := a.batch, keys := a.keys, leaf := fun k => T.map1 g (a.leaf k) }
 
 /-- SPEC: `td.apply(fn, other)` on plain tensordicts -/
-def TD.apply2 (g : α → α → α) (a b : TD α) : TD α :=
+def TD.apply2 (g : α → β → γ) (a : TD α) (b : TD β) : TD γ :=
   { batch := a.batch, keys := a.keys, leaf := fun k => T.map2 g (a.leaf k) (b.leaf k) }
 
 /-- `lazy.apply(fn)` -/
-def lazyApply1 (L : Lazy α) (g : α → α) : Lazy α := ⟨L.members.map (TD.apply1 g), L.sd⟩
+def lazyApply1 (L : Lazy α) (g : α → β) : Lazy β := ⟨L.members.map (TD.apply1 g), L.sd⟩
 
 /-- `lazy.apply(fn, other)`: `other.unbind(stack_dim)` zipped strictly with the members -/
-def lazyApply2 (L : Lazy α) (other : TD α) (g : α → α → α) : Option (Lazy α) :=
+def lazyApply2 (L : Lazy α) (other : TD β) (g : α → β → γ) : Option (Lazy γ) :=
   let os := other.unbind L.sd
   if os.length ≠ L.members.length then none
   else some ⟨(L.members.zip os).map fun p => TD.apply2 g p.1 p.2, L.sd⟩
+
+/-- mirrors `_dispatch_comparison` (_lazy.py: `==`, `!=`, `<`, `<=`, `>`, `>=`) with a tensordict
+operand of the stack's batch size: the members are zipped strictly with `other.unbind(stack_dim)`,
+compared one by one, and the results lazily stacked along the stack dim -/
+def lazyCompare (L : Lazy α) (other : TD α) (cmp : α → α → Bool) : Option (Lazy Bool) := lazyApply2 L other cmp
+
+/-- the same with a number: every member is compared with it -/
+def lazyCompareScalar (L : Lazy α) (c : α) (cmp : α → α → Bool) : Lazy Bool := lazyApply1 L (fun x => cmp x c)
 
 end TdVerif.C08
